@@ -580,6 +580,28 @@ pub mod router {
 		crate::routing::router::verif::max_final_value_msat(hops, channel_saturation_pow_half)
 	}
 
+	/// `routing::router::get_route` (crate-private): the route search WITHOUT the random CLTV offset
+	/// and the parameter re-check that [`crate::routing::router::find_route`] applies afterwards.
+	pub fn get_route_raw<L: crate::util::logger::Logger, GL: crate::util::logger::Logger, S: crate::routing::scoring::ScoreLookUp>(
+		our_node_pubkey: &bitcoin::secp256k1::PublicKey,
+		route_params: &crate::routing::router::RouteParameters,
+		network_graph: &crate::routing::gossip::NetworkGraph<GL>,
+		first_hops: Option<&[&crate::ln::channel_state::ChannelDetails]>, logger: L, scorer: &S,
+		score_params: &S::ScoreParams, random_seed_bytes: &[u8; 32],
+	) -> Result<crate::routing::router::Route, &'static str> {
+		let graph_lock = network_graph.read_only();
+		crate::routing::router::get_route(
+			our_node_pubkey,
+			route_params,
+			&graph_lock,
+			first_hops,
+			logger,
+			scorer,
+			score_params,
+			random_seed_bytes,
+		)
+	}
+
 	/// The accessors of the `CandidateRouteHop::FirstHop` the router builds from `details`:
 	/// `(htlc_minimum_msat, effective_capacity, short_channel_id,
 	/// globally_unique_short_channel_id, (fees.base_msat, fees.proportional_millionths),
@@ -1876,4 +1898,29 @@ pub fn monitor_close_flags<Signer: crate::sign::ecdsa::EcdsaChannelSigner>(
 	monitor: &crate::chain::channelmonitor::ChannelMonitor<Signer>,
 ) -> [bool; 6] {
 	monitor.verif_close_flags()
+}
+
+/// Sending a payment with an explicit payment hash and an optional keysend preimage that need not hash
+/// to it (C04: the keysend arms of the receive path).
+pub mod keysend {
+	use crate::ln::channelmanager::{AChannelManager, PaymentId};
+	use crate::ln::outbound_payment::RecipientOnionFields;
+	use crate::routing::router::Route;
+	use crate::types::payment::{PaymentHash, PaymentPreimage};
+
+	/// `ChannelManager::verif_send_with_hash_and_keysend`
+	pub fn send_with_hash_and_keysend<CM: AChannelManager>(
+		node: &CM, route: &Route, payment_hash: PaymentHash, recipient_onion: RecipientOnionFields,
+		keysend_preimage: Option<PaymentPreimage>, payment_id: PaymentId,
+	) -> Result<(), String> {
+		node.get_cm()
+			.verif_send_with_hash_and_keysend(
+				route,
+				payment_hash,
+				recipient_onion,
+				keysend_preimage,
+				payment_id,
+			)
+			.map_err(|e| format!("{:?}", e))
+	}
 }
